@@ -12,6 +12,7 @@ CONFIG = dict(
           "(epoch, frame, Atropos, cheaters, sealed flag) and of persisted epoch/decided state between instances. Non-trivial = at least 2 "
           "blocks decided and at least one instance received an order different from creation order; distinct by scenario hash."),
     assumptions=["forking validators hold < 1/3 of the weight", "events of a sealed epoch are no longer fed (real callers reject them by epoch check)"],
+    level_more='Unit TestC01Shapes runs the same property on four large shapes (65-70 validators at the quorum margin with forkers beyond sorted index 63; one block confirming 700-1200 events; 66-70 same-sequence events of one validator; a validator cut off for more than 100 frames).',
     units=[dict(test="TestC01Agreement", quick=1200, thorough=24000, shards=16),
            # the rare large shapes: 65-70 validators, one block confirming several hundred events, 66-70 same-seq events
            dict(test="TestC01Shapes", quick=8, thorough=480, shards=16)],
